@@ -160,7 +160,9 @@ class TriggerContext:
             # mapping it is given: a copy keeps that out of the application's own dict.)
             scope = dict(f_globals)
             scope.update(self.__frame.f_locals)
-            return eval(expression, scope)
+            # the locals are given as locals too (a copy: an assignment expression must not write to the frame):
+            # locals(), vars() and dir() in an expression show the frame's locals, not the module's globals as well
+            return eval(expression, scope, dict(self.__frame.f_locals))
         except BaseException as e:
             return e
 
